@@ -436,3 +436,32 @@ Theorem C04_props_unchanged_xlsx : forall p : xlsx_properties,
   (x_title p = None -> p_title (xlsx_props p) = []).
 Proof. intro p. repeat split; intros; simpl; rewrite H; reflexivity. Qed.
 Print Assumptions C04_props_unchanged_xlsx.
+
+(* ================================================================= archive members *)
+(* the path argument of an archive member is  <archive path>!/<member name>.  For an archive path in normal form and
+   ANY member name m — relative, "./x", "a//b", absolute "/srv/x", … — whose kept components (non-empty, not ".")
+   are qs ++ [n]: the file name is n, and file_path / folder_path keep the archive path in front:
+   <archive path>!/q1/…/n  and  <archive path>!/q1/…  (just <archive path>! for a top-level member) *)
+Theorem C04_archive_member_metadata :
+  forall (fs_exists : str -> option bool) (fs_resolve : str -> str) (guard : bool)
+         (root : str) (dirs : list str) (aname m : str) (qs : list str) (n : str) m',
+    good_root root = true -> forallb good_part dirs = true -> good_part aname = true ->
+    kept m = qs ++ [n] ->
+    populate_from_path fs_exists fs_resolve guard file_meta_default
+      (Some ((root ++ join_slash (dirs ++ [aname])) ++ [BANG; SLASH] ++ m)) = Ok m' ->
+    filename m' = Some n /\ file_extension m' = Some (suffix_of_name n)
+    /\ file_path m' = Some (shown fs_exists fs_resolve ((root ++ join_slash (dirs ++ [aname])) ++ BANG :: SLASH :: join_slash (qs ++ [n])))
+    /\ folder_path m' = Some (shown fs_exists fs_resolve
+         (match qs with [] => (root ++ join_slash (dirs ++ [aname])) ++ [BANG]
+                      | _ => (root ++ join_slash (dirs ++ [aname])) ++ BANG :: SLASH :: join_slash qs end)).
+Proof. exact populate_member. Qed.
+Print Assumptions C04_archive_member_metadata.
+
+Example C04_archive_member_absolute_name :
+  kept (s "/srv/export/summary.txt") = [s "srv"; s "export"] ++ [s "summary.txt"]
+  /\ kept (s "./docs//guide.md") = [s "docs"] ++ [s "guide.md"]
+  /\ populate_from_path (fun _ => Some false) (fun q => q) true file_meta_default (Some (s "out/bundle.zip!//srv/export/summary.txt"))
+     = Ok {| filename := Some (s "summary.txt"); file_extension := Some (s ".txt");
+             file_path := Some (s "out/bundle.zip!/srv/export/summary.txt"); folder_path := Some (s "out/bundle.zip!/srv/export") |}.
+Proof. vm_compute. repeat split. Qed.
+Print Assumptions C04_archive_member_absolute_name.
